@@ -88,7 +88,7 @@ def scratch_root():
     if REPO == "/repo":
         return VERIF
     h = hashlib.sha1(REPO.encode()).hexdigest()[:10]
-    d = os.path.join(os.path.dirname(REPO), ".verif-scratch-" + h)
+    d = os.path.join(os.path.dirname(REPO), ".vsx-" + h)
     os.makedirs(d, exist_ok=True)
     return d
 
